@@ -142,6 +142,12 @@ def _events(args):
     elif kind == "prop":
         alias = rng.choice(["prop", "p", "proportion"])
         form = rng.choice(["col", "const", "kw"])
+        if form != "const" and rng.random() < 0.3:
+            # the trials column is tied in the training frame (it is still a column: the new frame's values count)
+            tied = max(w.cols["s"]["v"]) + rng.randint(0, 2)
+            w.cols["nn"]["v"][:] = [tied] * w.n
+            train["cols"]["nn"]["v"][:] = [tied] * w.n
+            w.df["nn"] = np.array([tied] * w.n, dtype=np.int64)
         if form == "const":
             cst = max(w.cols["s"]["v"]) + rng.randint(0, 2)
             call, pieces = f"{alias}(s, {cst})", [[["s", 0]], [["#const", 0]]]
